@@ -3,8 +3,13 @@
 set -e
 cd "$(dirname "$0")"
 export CARGO_NET_OFFLINE=true
-[ -f tools/extract_tables.py ] && python3 tools/extract_tables.py /repo lean/CalVerif/Gen || true
-(cd lean && lake build)
+if [ -f tools/extract_tables.py ]; then python3 tools/extract_tables.py /repo lean/CalVerif/Gen; fi
+python3 tools/gen_root.py
+(cd lean && lake build CalVerif)
+for f in lean/Driver/C*.lean; do
+  n=$(basename "$f" .lean | tr 'A-Z' 'a-z')
+  (cd lean && lake build "drv_$n")
+done
 [ -f harness/Cargo.lock ] || cp /repo/Cargo.lock harness/Cargo.lock
 (cd harness && cargo build --release --offline --bins 2>&1 | tail -3)
 echo setup done
